@@ -136,6 +136,33 @@ func vlaDecode(prev, b []byte, usePrev bool) Ev {
 	return Ev{"res": outcome(r, err), "n": n, "v": proj, "append_safe": appendSafe}
 }
 
+// c19Canary: fixed VLAs (one with a single layer, one rich) marshalled and decoded again; what they give must never
+// change, whatever was marshalled or decoded - accepted or REJECTED - before (package-level state such as a pool of
+// scratch contexts is shared by all values)
+func c19Canary() string {
+	out := ""
+	guard(func() {
+		vs := []rtp.VLA{
+			{RTPStreamID: 0, RTPStreamCount: 2, ActiveSpatialLayer: []rtp.SpatialLayer{{RTPStreamID: 1, SpatialID: 0, TargetBitrates: []int{100}}}},
+			{RTPStreamID: 1, RTPStreamCount: 3, HasResolutionAndFramerate: true, ActiveSpatialLayer: []rtp.SpatialLayer{
+				{RTPStreamID: 0, SpatialID: 0, TargetBitrates: []int{150, 300}, Width: 320, Height: 180, Framerate: 15},
+				{RTPStreamID: 0, SpatialID: 1, TargetBitrates: []int{600, 20000}, Width: 640, Height: 360, Framerate: 30},
+				{RTPStreamID: 2, SpatialID: 0, TargetBitrates: []int{1, 2, 3, 4}, Width: 1280, Height: 720, Framerate: 30}}},
+		}
+		for _, v := range vs {
+			b, err := v.Marshal()
+			var back rtp.VLA
+			n, err2 := back.Unmarshal(b)
+			out += fmt.Sprint(b, err, n, err2, projVLA(&back), "|")
+		}
+	})
+	return out
+}
+
+var c19Pristine = c19Canary()
+
+func c19CanaryOK() bool { return c19Canary() == c19Pristine }
+
 func runC19(raw json.RawMessage, w *Writer) {
 	var c c19Case
 	if err := json.Unmarshal(raw, &c); err != nil {
@@ -158,12 +185,13 @@ func runC19(raw json.RawMessage, w *Writer) {
 			e["back"] = vlaDecode(nil, b, false)
 			e["backused"] = vlaDecode(bytesOf(c.Prev), b, true)
 		}
+		e["canary_ok"] = c19CanaryOK()
 		w.Emit(e)
 		if c.Kind == "valid" {
 			// decode the reference encoding (independent of the library's encoder)
 			rb := bytesOf(c.Bytes)
 			w.Emit(Ev{"ev": "unmarshal", "kind": "reference", "bytes": c.Bytes, "want": m["v"],
-				"fresh": vlaDecode(nil, rb, false), "used": vlaDecode(bytesOf(c.Prev), rb, true)})
+				"fresh": vlaDecode(nil, rb, false), "used": vlaDecode(bytesOf(c.Prev), rb, true), "canary_ok": c19CanaryOK()})
 		}
 	case "bytes":
 		rb := bytesOf(c.Bytes)
@@ -172,6 +200,6 @@ func runC19(raw json.RawMessage, w *Writer) {
 			in = rb
 		}
 		w.Emit(Ev{"ev": "unmarshal", "kind": "bytes", "bytes": c.Bytes, "want": projVLA(&rtp.VLA{}),
-			"fresh": vlaDecode(nil, in, false), "used": vlaDecode(bytesOf(c.Prev), in, true)})
+			"fresh": vlaDecode(nil, in, false), "used": vlaDecode(bytesOf(c.Prev), in, true), "canary_ok": c19CanaryOK()})
 	}
 }
